@@ -627,14 +627,15 @@ func runReadHit(c *Ctx, r *RuleRun) {
 	}
 	sameKeyFact := func(ins ssa.Instruction) bool { return sameKeyFactD(ins, 0) }
 	// DB.search: found-returns
-	eachInstr(search, func(ins ssa.Instruction) {
-		ret, ok := ins.(*ssa.Return)
-		if !ok {
-			return
+	for _, rc := range returnCases(search) {
+		if len(rc.Vals) != 2 {
+			continue
 		}
-		found := cellValue(retOperand(ret, 1)) // (named results of a deferring function live in cells)
+		// (named results of a deferring function live in cells: one case per assignment that can be the last one)
+		found := rc.Vals[1]
+		var ret ssa.Instruction = rc.At
 		if isConstBool(found, false) {
-			return
+			continue
 		}
 		viaValue := false
 		if ex, ok := found.(*ssa.Extract); ok {
@@ -655,12 +656,12 @@ func runReadHit(c *Ctx, r *RuleRun) {
 				})
 			}, true) {
 				r.Undecided(p.FnName(search), "found-return", p.Pos(instrPos(ret)), "the hit is decided inside a boolean helper that calls IsSameKey; this rule reads the test only in DB.search and its lookup helpers")
-				return
+				continue
 			}
 		}
 		r.Check(viaValue && sameKeyFact(ret), p.FnName(search), "found-return", p.Pos(instrPos(ret)), "same user key, value through types.Value",
 			"a lookup result is returned without the same-user-key test or without going through types.Value: a neighbouring key's value or a deleted value is returned")
-	})
+	}
 	// table search: found-returns need the same-key test (so that the walk continues otherwise)
 	eachInstr(slb, func(ins ssa.Instruction) {
 		ret, ok := ins.(*ssa.Return)
@@ -814,6 +815,26 @@ func runReadEntry(c *Ctx, r *RuleRun, skiplistOnly bool) {
 					return true
 				}
 				tv, ok := pk.TypesInfo.Types[cl]
+				if ok && types.Unalias(tv.Type) != types.Type(entry) && isEntryLike(tv.Type) {
+					// a node built around the entry as a whole (`&Element{Entry: entry, …}`): nothing can be left out
+					for _, el := range cl.Elts {
+						kv, isKV := el.(*ast.KeyValueExpr)
+						if !isKV {
+							continue
+						}
+						id, isID := kv.Key.(*ast.Ident)
+						if !isID || id.Name != "Entry" {
+							continue
+						}
+						if _, isLit := kv.Value.(*ast.CompositeLit); isLit {
+							continue
+						}
+						if vt, ok := pk.TypesInfo.Types[kv.Value]; ok && types.Unalias(vt.Type) == types.Type(entry) {
+							r.Hold(encl, "Entry literal", p.Pos(kv.Pos()), "the entry is copied as a whole")
+						}
+					}
+					return true
+				}
 				if !ok || types.Unalias(tv.Type) != types.Type(entry) {
 					return true
 				}
@@ -1957,6 +1978,8 @@ func runSkipDescent(c *Ctx, r *RuleRun) {
 	}
 	keyField := p.Field("types", "Entry", "Key")
 	// the search target: a string parameter, or the Key of an entry parameter
+	var descentNF nfOpts
+	congBusy := map[*ssa.Phi]bool{}
 	abstract := func(v ssa.Value) string {
 		if pr, ok := v.(*ssa.Parameter); ok {
 			if bt, ok := pr.Type().Underlying().(*types.Basic); ok && bt.Info()&types.IsString != 0 {
@@ -1977,12 +2000,27 @@ func runSkipDescent(c *Ctx, r *RuleRun) {
 				}
 			}
 		}
-		if ph, ok := v.(*ssa.Phi); ok && ph.Comment == "curr" {
-			return "CURR"
+		// the cursor of a walk: a loop-carried pointer to a list element, whatever it is called
+		if ph, ok := v.(*ssa.Phi); ok {
+			if pt, isPtr := ph.Type().Underlying().(*types.Pointer); isPtr {
+				if n := p.isModuleNamed(pt.Elem()); n != nil && n.Obj().Name() == "Element" && n.Obj().Pkg() == pk.Pkg {
+					// not the cursor itself but a variable that mirrors `cursor.next[i]`: read as that expression
+					if !congBusy[ph] {
+						congBusy[ph] = true
+						_, isCong := descentNF.phiCongruent(ph, 0, map[ssa.Value]bool{})
+						delete(congBusy, ph)
+						if isCong {
+							return ""
+						}
+					}
+					return "CURR"
+				}
+			}
 		}
 		return ""
 	}
 	o := nfOpts{p: p, abstract: abstract, depth: 8}
+	descentNF = o
 	type site struct {
 		f    *ssa.Function
 		nf   string
